@@ -12,8 +12,14 @@ RULES = {
     'NO-SWALLOWING-GATHER': 'no gather(..., return_exceptions=True) / multi(quiet_exceptions=...) on the delivery chain: a '
                             'consumer\'s exception must reach the emitter',
     'STATE-FROM-RESULT': 'accumulate.state is assigned only from the value its function returned (or the first element)',
+    'FINALLY-NO-JUMP': 'no return / break / continue inside a finally block: it would discard the exception that is propagating '
+                       '(a failed read would be reported as a completed one)',
 }
 FAIL_SOURCES = ('UCALL', 'EM', 'CALL', 'SELFCALL', 'SUPERCALL', 'LEAVE')
+# exception types that a key's __eq__/__hash__ or any user code may raise (as opposed to control-flow signals such as
+# StopIteration / queue.Empty, which a node may legitimately absorb)
+GENERAL_EXCEPTIONS = {'Exception', 'BaseException', 'ValueError', 'TypeError', 'KeyError', 'IndexError', 'LookupError', 'AttributeError',
+                      'RuntimeError', 'ArithmeticError', 'ZeroDivisionError', 'None', ''}
 # fields that are not node state in the sense of C16 (bookkeeping written by _emit before delivery)
 NOT_STATE = {'current_value', 'current_metadata'}
 
@@ -53,6 +59,33 @@ def check_reraise(ctx, R):
                 swallowed = any(x.kind == 'HANDLED' for x in rest) or (status != 'raise' and any(x.kind == 'HANDLER' for x in rest))
                 if swallowed:
                     bad = evs
+        # a container operation on a value derived from the element (seen.remove(key), buffer.index(x), d[key]) runs user code
+        # too - the key's __eq__ / __hash__: a handler for a general exception type that swallows it hides the element's failure
+        if fn.name == 'update' and handlers:
+            for st, status in paths:
+                evs = st.events
+                for i, e in enumerate(evs):
+                    if e.kind != 'EXC':
+                        continue
+                    source = (e.x or {}).get('source')
+                    if source is None or source.kind not in ('TK', 'ST', 'CALL') or (source.kind == 'CALL' and source.c in (
+                            'exception', 'error', 'warning', 'info', 'debug', 'update', 'isinstance', 'len')):
+                        continue
+                    node = (source.x or {}).get('node')
+                    call = node if isinstance(node, ast.Call) else None
+                    if call is None:
+                        continue
+                    derived = any(isinstance(a_, ast.Name) and ('x' in st.env.get(a_.id, ()) or any(
+                        str(t).startswith('ucall:') for t in st.env.get(a_.id, ()))) for a_ in call.args)
+                    if not derived:
+                        continue
+                    rest = evs[i + 1:]
+                    hd = next((x for x in rest if x.kind == 'HANDLER'), None)
+                    if hd is None or str(hd.a) not in GENERAL_EXCEPTIONS:
+                        continue
+                    n += 1
+                    if any(x.kind == 'HANDLED' for x in rest) or status != 'raise':
+                        bad = evs
         if handlers or fn.name in ('_emit', 'emit'):
             R.ob('RERAISE', con, 'handlers', bad is None,
                  'an exception raised while processing an element is caught and not re-raised: the emitter never sees it',
@@ -124,3 +157,37 @@ def check_no_swallowing_gather(ctx, R):
     R.ob('NO-SWALLOWING-GATHER', 'streamz', 'gather-calls', not bad,
          'exceptions of awaited consumers are collected instead of raised: %s' % ', '.join(
              '%s:%d' % (f.qual, x.lineno) for f, x in bad), ctx.where(bad[0][0], bad[0][1].lineno) if bad else None, None, n)
+
+
+def check_finally_no_jump(ctx, R, modules):
+    """a `return`, or a `break` / `continue` that leaves the finally block, inside `finally:` swallows whatever exception is
+    in flight.  One obligation per function that has a try/finally (syntactic: the construct itself is the defect)."""
+    M = ctx.model
+    n_fin = 0
+    for fn in M.all_funcs():
+        if fn.module.name not in modules:
+            continue
+        tries = [t for t in own_nodes(fn.node) if isinstance(t, ast.Try) and t.finalbody]
+        if not tries:
+            continue
+        bad = None
+        for t in tries:
+            n_fin += 1
+            for stmt in t.finalbody:
+                stack = [(stmt, 0)]
+                while stack:
+                    node, loops = stack.pop()
+                    if isinstance(node, (ast.FunctionDef, ast.AsyncFunctionDef, ast.Lambda, ast.ClassDef)):
+                        continue
+                    if isinstance(node, ast.Return):
+                        bad = bad or (node, 'return')
+                    if isinstance(node, (ast.Break, ast.Continue)) and loops == 0:
+                        bad = bad or (node, type(node).__name__.lower())
+                    inner = loops + (1 if isinstance(node, (ast.For, ast.While, ast.AsyncFor)) else 0)
+                    for c in ast.iter_child_nodes(node):
+                        stack.append((c, inner))
+        R.ob('FINALLY-NO-JUMP', ctx.construct(fn), 'finally', bad is None,
+             'a `%s` inside a finally block discards the exception in flight: a failure is turned into a normal completion '
+             '(here: a partially read batch would be processed and committed as if it were whole)' % (bad[1] if bad else ''),
+             ctx.where(fn, bad[0].lineno if bad else fn.node.lineno))
+    R.count('finally_blocks', n_fin)
